@@ -6,7 +6,7 @@ import numpy as np
 from core.common import T0, H, fm, hrs
 from core.pool import pmap
 from core.runner import viol
-from harness import cnode
+from harness import chelper, cnode
 
 from finam.interfaces import ComponentStatus as CS
 
@@ -66,7 +66,24 @@ def judge(specs, links, order, link_order):
     return bad, out, stuck, ncalls
 
 
+def run_helper(case):
+    cfg = case["cfg"]
+    if case.get("path") is not None:
+        vs = chelper.run_path(cfg, case["path"])
+        return dict(n=1, violations=[viol(fp, what, dict(kind="helper", cfg=cfg, path=p)) for _c, fp, what, p in vs])
+    r = chelper.explore(cfg)
+    res = dict(n=1, states=r["states"], transitions=r["transitions"], traces=r["quiescent"], nontrivial=1, counters={"helper_connect_calls": r["calls"], "helper_quiescent_states": r["quiescent"]}, violations=[])
+    if r.get("capped"):
+        res["capped"] = dict(cfg=cfg)
+    for _c, fp, what, p in r["violations"]:
+        res["violations"].append(viol(fp, f"helper layer {cfg}: {what}", dict(kind="helper", cfg=cfg, path=p)))
+    res["sample"] = dict(kind="helper", cfg=cfg, states=r["states"], transitions=r["transitions"])
+    return res
+
+
 def run_case(case):
+    if case.get("kind") == "helper":
+        return run_helper(case)
     res = dict(n=0, states=0, transitions=0, traces=0, nontrivial=0, counters={}, violations=[])
     cnt = res["counters"]
     for specs, links in case["shapes"]:
@@ -186,6 +203,15 @@ def run(tier, seed, agg):
     shapes += list(two_slot_shapes())
     shapes += list(stuck_plus_arg_shapes())
     cases = [dict(shapes=shapes[i : i + 40], lo_mode="two" if q else "all") for i in range(0, len(shapes), 40)]
+    # helper layer: one component, scripted peers, all sequences of connect calls / stepwise provided items / peer events
+    for n_in in (0, 1, 2):
+        for n_out in (0, 1, 2):
+            if n_in + n_out == 0 or n_in + n_out > (3 if q else 4):
+                continue
+            for di in itertools.product((True, False), repeat=n_in):
+                for do in itertools.product((True, False), repeat=n_out):
+                    for start in (0, 1):
+                        cases.append(dict(kind="helper", cfg=dict(n_in=n_in, n_out=n_out, declared_in=list(di), declared_out=list(do), start=start)))
     k = seed % len(cases)
     for r in pmap(run_case, cases[k:] + cases[:k]):
         agg.add(r)
@@ -194,7 +220,8 @@ def run(tier, seed, agg):
         rule="every dependency shape of metadata/initial-data exchange over <=3 single-slot components (info declared / given per call / from own output / from input / open-from-target; data constant / from pulled inputs; start offsets), "
         "all two-output x two-input shapes with every slot declaration order and feedback, and stuck cycles next to per-call info providers, each executed through the real Composition.connect under ALL listing orders x ALL link creation orders (quick: identity and reversed link order for 3 components); "
         "oracle: least fixpoint of derivable exchange items (success with complete infos, initial publications at composition start and own start, exact initial values; otherwise circular error listing exactly the stuck components), "
-        "per-call status rule on every connect call, call cap for termination. states/transitions = component connect calls observed; non-trivial = executions needing more than two calls per component",
+        "per-call status rule on every connect call, call cap for termination. Helper layer: ONE component (0-2 inputs, 0-2 outputs, infos declared or handed in later) with scripted peers, breadth-first search over ALL sequences of "
+        "connect calls (each handing in at most one new item), peer info/data publications and peer exchanges, until quiescence; per-call status rule, done items stay done, every possible exchange happens in the call that makes it possible, final state CONNECTED with the peers' values and exactly the required initial publications. states/transitions = component connect calls observed; non-trivial = executions needing more than two calls per component",
         bound=dict(components="<=3 (+4 in the stuck family)", slots="<=2 per side", offsets="{0,1,2}"),
         assumptions=["the reference fixpoint model in harness/cnode.py", "observable exchange items are read from the public connector properties"],
     )
